@@ -5,19 +5,23 @@ package props
 import (
 	"context"
 	"fmt"
+	"io"
 	"os"
 	"path/filepath"
 	"sort"
 	"strings"
 	"testing/fstest"
 
+	"github.com/bufbuild/protocompile"
 	"github.com/pentops/j5/internal/j5s/protoprint"
 	"github.com/pentops/j5/internal/protosrc"
 	"github.com/pentops/j5/internal/verifh/rt"
 	"google.golang.org/protobuf/proto"
 	"google.golang.org/protobuf/reflect/protodesc"
 	"google.golang.org/protobuf/reflect/protoreflect"
+	"google.golang.org/protobuf/reflect/protoregistry"
 	"google.golang.org/protobuf/types/descriptorpb"
+	"google.golang.org/protobuf/types/dynamicpb"
 )
 
 func init() { Registry["C05"] = runC05 }
@@ -607,6 +611,9 @@ func runC05(r *rt.Runner) {
 		c05CheckFiles(c, []protoreflect.FileDescriptor{f}, nil, "synthetic-options", "synthetic-options", nil)
 		c.Feature("c05:synthetic-options")
 	})
+	// a hand-written file declaring its own option messages: map fields of every key and value kind, repeated
+	// scalars, nested messages, enums (no registered extension has a map whose values are not strings)
+	r.Do("custom-options", func(c *rt.C) { c05CustomOptions(c) })
 	// every hand-written proto3 file in the repository's proto/ tree
 	r.Do("repo-protos", func(c *rt.C) {
 		root := os.Getenv("VERIF_REPO_DIR")
@@ -653,4 +660,126 @@ func runC05(r *rt.Runner) {
 			c.Feature("c05:repo-proto")
 		}
 	})
+}
+
+const c05CustomFile = "custom/v1/custom.proto"
+
+func c05CompileCustom(src string) (protoreflect.FileDescriptor, error) {
+	cc := protocompile.Compiler{
+		Resolver: protocompile.WithStandardImports(&protocompile.SourceResolver{
+			Accessor: func(name string) (io.ReadCloser, error) {
+				if name != c05CustomFile {
+					return nil, os.ErrNotExist
+				}
+				return io.NopCloser(strings.NewReader(src)), nil
+			},
+		}),
+		SourceInfoMode: protocompile.SourceInfoStandard,
+	}
+	files, err := cc.Compile(context.Background(), c05CustomFile)
+	if err != nil {
+		return nil, err
+	}
+	return files[0], nil
+}
+
+// c05DecodeWith re-decodes the descriptor of file with the extension types declared in typesFrom, so that
+// option values are compared as values (not as unknown bytes).
+func c05DecodeWith(file, typesFrom protoreflect.FileDescriptor) *descriptorpb.FileDescriptorProto {
+	fdp := protodesc.ToFileDescriptorProto(file)
+	fdp.SourceCodeInfo = nil
+	types := &protoregistry.Types{}
+	exts := typesFrom.Extensions()
+	for i := 0; i < exts.Len(); i++ {
+		if err := types.RegisterExtension(dynamicpb.NewExtensionType(exts.Get(i))); err != nil {
+			panic("harness: register extension: " + err.Error())
+		}
+	}
+	b, err := proto.MarshalOptions{Deterministic: true}.Marshal(fdp)
+	if err != nil {
+		panic("harness: marshal: " + err.Error())
+	}
+	out := &descriptorpb.FileDescriptorProto{}
+	if err := (proto.UnmarshalOptions{Resolver: types}).Unmarshal(b, out); err != nil {
+		panic("harness: unmarshal: " + err.Error())
+	}
+	return out
+}
+
+func c05CustomOptions(c *rt.C) {
+	type mapCase struct{ name, typ, entries string }
+	cases := []mapCase{
+		{"string-string", "map<string, string>", `{key: "colour", value: "red \"dark\""}, {key: "badge", value: "new"}`},
+		{"int32-int64", "map<int32, int64>", `{key: 2, value: -9223372036854775808}, {key: 1, value: 7}`},
+		{"string-int32", "map<string, int32>", `{key: "low", value: 1}, {key: "high", value: -2147483648}`},
+		{"string-uint64", "map<string, uint64>", `{key: "max", value: 18446744073709551615}`},
+		{"string-bool", "map<string, bool>", `{key: "visible", value: true}, {key: "editable", value: false}`},
+		{"string-enum", "map<string, Level>", `{key: "default", value: LEVEL_HIGH}, {key: "zero", value: LEVEL_UNSPECIFIED}`},
+		{"string-double", "map<string, double>", `{key: "ratio", value: 0.25}, {key: "third", value: 0.3333333333333333}`},
+		{"string-bytes", "map<string, bytes>", `{key: "magic", value: "\001\002\377"}`},
+		{"string-message", "map<string, Sub>", `{key: "a", value: {text: "x", n: 3}}, {key: "b", value: {}}`},
+		{"bool-string", "map<bool, string>", `{key: true, value: "yes"}, {key: false, value: "no"}`},
+		{"int64-string", "map<int64, string>", `{key: -5, value: "minus five"}, {key: 9007199254740993, value: "big"}`},
+		{"uint32-bool", "map<uint32, bool>", `{key: 4294967295, value: true}`},
+	}
+	for _, tc := range cases {
+		src := strings.Join([]string{
+			`syntax = "proto3";`, ``, `package custom.v1;`, ``, `import "google/protobuf/descriptor.proto";`, ``,
+			`extend google.protobuf.FieldOptions {`, `  Display display = 50001;`, `}`, ``,
+			`extend google.protobuf.MessageOptions {`, `  Display shown = 50002;`, `}`, ``,
+			`message Sub {`, `  string text = 1;`, `  int32 n = 2;`, `}`, ``,
+			`message Display {`, `  string label = 1;`, `  ` + tc.typ + ` hints = 2;`, `  repeated int32 sizes = 3;`, `  Sub sub = 4;`, `  repeated Level levels = 5;`, `}`, ``,
+			`enum Level {`, `  LEVEL_UNSPECIFIED = 0;`, `  LEVEL_LOW = 1;`, `  LEVEL_HIGH = 5;`, `}`, ``,
+			`message Thing {`,
+			`  option (shown) = {`, `    hints: [` + tc.entries + `]`, `    levels: [LEVEL_LOW, LEVEL_HIGH]`, `  };`, ``,
+			`  string name = 1 [(display) = {`, `    label: "Name"`, `    hints: [` + tc.entries + `]`, `    sizes: [1, -2, 2147483647]`, `    sub: {text: "t", n: -1}`, `  }];`,
+			`}`, ``,
+		}, "\n")
+		id := "custom/" + tc.name
+		det := map[string]any{"class": "custom-options", "id": id, "source": src}
+		original, err := c05CompileCustom(src)
+		if err != nil {
+			c.Feature("c05:custom-does-not-compile/" + tc.name + "/" + errSig(err))
+			continue
+		}
+		var printed string
+		c.Input([]byte(src))
+		ok, pv, fn, st := rt.Guard(func() { printed, err = protoprint.PrintFile(context.Background(), original, "") })
+		c.EndBudget()
+		if !ok {
+			det["stack"] = st
+			c.Violate("print-panic/"+fn, fmt.Sprintf("PrintFile of a file with a %s option field panicked: %v", tc.typ, pv), det)
+			continue
+		}
+		if err != nil {
+			c.Violate("print-error/"+errSig(err), fmt.Sprintf("PrintFile of a file with a %s option field fails: %v", tc.typ, err), det)
+			continue
+		}
+		det["printed"] = printed
+		c.Eval(rt.Hash("custom-options", printed), true)
+		reparsed, err := c05CompileCustom(printed)
+		if err != nil {
+			c.Violate("reparse-fails/"+errSig(err), fmt.Sprintf("the printed text of a file with a %s option field does not compile: %v", tc.typ, rt.Clip(err.Error(), 300)), det)
+			continue
+		}
+		want, got := c05DecodeWith(original, original), c05DecodeWith(reparsed, original)
+		if !proto.Equal(want, got) {
+			c.Violate("descriptor-differs/custom-option-value", fmt.Sprintf("printing and re-parsing changes a %s option value: %v before, %v after", tc.typ, want.MessageType[2].Field[0].Options, got.MessageType[2].Field[0].Options), det)
+			continue
+		}
+		var again string
+		ok, pv, fn, _ = rt.Guard(func() { again, err = protoprint.PrintFile(context.Background(), reparsed, "") })
+		if !ok {
+			c.Violate("reprint-panic/"+fn, fmt.Sprintf("printing the re-parsed file panicked: %v", pv), det)
+		} else if err != nil {
+			c.Violate("reprint-error/"+errSig(err), fmt.Sprintf("printing the re-parsed file fails: %v", err), det)
+		} else if again != printed {
+			det["second_print"] = again
+			c.Violate("reprint-differs/"+reprintClass(printed, again), "printing the re-parsed file gives a different text: "+firstDifferingLine(printed, again), det)
+		} else {
+			c.Event("reprints_identical")
+			c.Event("custom_option_files_round_tripped")
+		}
+		c.Feature("c05:custom-options/" + tc.name)
+	}
 }
